@@ -120,6 +120,13 @@ except Exception:
     PID_MAX = 32768
 
 
+def log_before(log, svc, t):
+    """does zinoma's log announce the start of service `svc` before the first start of `t`"""
+    a = log.find('INFO %s - Starting service' % svc)
+    cands = [x for x in (log.find('INFO %s - Building' % t), log.find('INFO %s - Starting service' % t)) if x >= 0]
+    return a >= 0 and (not cands or a < min(cands))
+
+
 def spawned_before(p1, p2):
     """was the process with pid p1 forked before the one with pid p2 (few forks apart; pids wrap at pid_max)"""
     if p1 is None or p2 is None:
@@ -199,7 +206,9 @@ def oneshot(rng, T, roots, fail=(), gated=True, tag='os', cap=None, hang_s=None,
                 else:
                     j = pos_start.get(dd)
                     if j is None:
-                        early = True
+                        # the service shell never wrote its line (zinoma exited and killed it first): the trace cannot tell;
+                        # fall back on zinoma's own log, where a spawn is announced before the dependent's start
+                        early = not log_before(run.stderr(), dd, t)
                     elif j < i:
                         early = False
                     else:
